@@ -116,7 +116,7 @@ def value_allowance(expected):
 
 
 DT_ATOL = 5e-13        # design (d): |loaded dt - round4(saved dt)| <= 5e-13
-DT_MIN, DT_MAX = 1e-4, 100.0
+DT_MIN, DT_MAX = 1e-4, 1000.0    # judged range: every step the header's 4 decimals can represent, from 0.0001 s to 1000 s
 
 
 def dt_in_domain(dt):
